@@ -398,4 +398,5 @@ pub fn run(ctx: &mut Ctx) {
             }
         }
     }
+    crate::spaces::depth_probes(ctx);
 }
